@@ -406,7 +406,16 @@ def writer_vs_grammar(ctx, rep):
                         hn = [_root_field(h.term)[0] for h in clause_holes]
                         # emitted on the false edge of is_zero(field.amount)
                         same = all(gnames[-2] in n for n in hn if n) if len(gnames) >= 2 else False
-                        okg = gv == "0" and same
+                        # …and the test is the EXACT zero test of the decimal library on the field itself: a value that was rounded,
+                        # truncated or otherwise computed first ("zero once shown with two decimals") drops a clause whose value is
+                        # not zero — 0.004 USD of fees does not survive the round trip (seeded change C14-s8)
+                        inner = [x for x in subterms(gt[2][0]) if isinstance(x, tuple) and x and x[0] == "call"
+                                 and parse_callee(x[1])[2] not in ("deref", "as_ref", "borrow", "clone")]
+                        exact = "rust_decimal" in gt[1] and not inner
+                        okg = gv == "0" and same and exact
+                        if gv == "0" and same and not exact:
+                            gfield = None
+                            guard = (("call", "zero test of a computed value: " + show(gt)[:80], ()), gv)
                         gfield = ".".join(gnames)
                 rep.ob("R1", f"{vname}:optional-clause-guard", okg,
                        f"optional clause is written iff {gfield} is non-zero, and prints that same field" if okg else
